@@ -61,3 +61,17 @@ Theorem C14_reverse_exempt : forall fl l i c shared,
   let l' := client_init fl l i shared in
   nth_error l' i = Some (joined c) /\ (forall j, j <> i -> nth_error l' j = nth_error l j).
 Proof. exact reverse_exempt. Qed.
+
+(* ---- builds without thread support (closed, not yet reaped RFB_NORMAL clients are still counted by
+   the dontDisconnect loop; [stale] marks them; not executed by the correspondence run): the decision
+   is the one of the threaded build or, with dontDisconnect only, one extra refusal of the newcomer
+   with nobody else touched; a never-shared screen still never gets a second inbound client *)
+Theorem C14_nothread_at_most_extra_refusal : forall stale fl l i shared,
+  client_init_nt stale fl l i shared = client_init fl l i shared \/
+  (f_dontdisc fl = true /\
+   client_init_nt stale fl l i shared = update (update l i (fun c => set_phase c PNormal)) i close).
+Proof. exact nothread_at_most_extra_refusal. Qed.
+
+Theorem C14_nothread_nevershared : forall stale fl l i shared, f_never fl = true ->
+  count_inbound_normal l <= 1 -> count_inbound_normal (client_init_nt stale fl l i shared) <= 1.
+Proof. exact nothread_nevershared. Qed.
